@@ -324,6 +324,167 @@ func funcKey(fd *ast.FuncDecl) string {
 	return fd.Name.Name
 }
 
+// T10: the accesses to built-in maps made by the head of a statement (the part evaluated before any
+// nested block), announced to the simulation's happens-before checker just before the statement.
+// Only operands that are certainly evaluated are announced (nothing to the right of && / ||, nothing
+// inside function literals, no loop conditions), so an announcement never names an access that
+// does not happen.
+func (r *rewriter) mapAccesses(s ast.Stmt) []ast.Stmt {
+	var outStmts []ast.Stmt
+	seen := map[string]bool{}
+	isMap := func(e ast.Expr) bool {
+		tv, ok := r.pkg.TypesInfo.Types[e]
+		if !ok || tv.Type == nil {
+			return false
+		}
+		_, ok = tv.Type.Underlying().(*types.Map)
+		return ok
+	}
+	var pure func(e ast.Expr) bool
+	pure = func(e ast.Expr) bool {
+		switch x := e.(type) {
+		case *ast.Ident:
+			return true
+		case *ast.BasicLit:
+			return true
+		case *ast.SelectorExpr:
+			return pure(x.X)
+		case *ast.ParenExpr:
+			return pure(x.X)
+		case *ast.StarExpr:
+			return pure(x.X)
+		case *ast.IndexExpr:
+			return isMap(x.X) && pure(x.X) && pure(x.Index)
+		case *ast.CallExpr:
+			// a.B().C() chains of argument-less getters (msg.GetHeader().GetType())
+			if len(x.Args) != 0 {
+				return false
+			}
+			se, ok := x.Fun.(*ast.SelectorExpr)
+			return ok && strings.HasPrefix(se.Sel.Name, "Get") && pure(se.X)
+		}
+		return false
+	}
+	announce := func(m ast.Expr, write bool) {
+		if !pure(m) {
+			return
+		}
+		var b bytes.Buffer
+		format.Node(&b, r.pkg.Fset, m)
+		key := fmt.Sprint(write, b.String())
+		if seen[key] {
+			return
+		}
+		seen[key] = true
+		fn := "MapRead"
+		if write {
+			fn = "MapWrite"
+		}
+		outStmts = append(outStmts, &ast.ExprStmt{X: rtCall(fn, m, strLit(r.pos(s.Pos())))})
+		r.done = append(r.done, site{Kind: "T10-" + fn, Pos: r.pos(m.Pos()), Note: b.String()})
+	}
+	var reads func(e ast.Expr)
+	reads = func(e ast.Expr) {
+		if e == nil {
+			return
+		}
+		ast.Inspect(e, func(n ast.Node) bool {
+			switch x := n.(type) {
+			case *ast.FuncLit:
+				return false
+			case *ast.BinaryExpr:
+				if x.Op == token.LAND || x.Op == token.LOR {
+					reads(x.X)
+					return false
+				}
+			case *ast.IndexExpr:
+				if isMap(x.X) {
+					// inner maps first (d.mc[t][s] reads d.mc, then d.mc[t])
+					reads(x.X)
+					reads(x.Index)
+					announce(x.X, false)
+					return false
+				}
+			case *ast.CallExpr:
+				if id, ok := x.Fun.(*ast.Ident); ok && id.Name == "delete" && len(x.Args) == 2 && isMap(x.Args[0]) {
+					reads(x.Args[0])
+					reads(x.Args[1])
+					announce(x.Args[0], true)
+					return false
+				}
+				if se, ok := x.Fun.(*ast.SelectorExpr); ok {
+					if id, ok := se.X.(*ast.Ident); ok && id.Name == "xsimrt" && se.Sel.Name == "Iter" {
+						// the range start is announced by Iter itself
+						if len(x.Args) == 1 {
+							if ie, ok := x.Args[0].(*ast.IndexExpr); ok {
+								reads(ie)
+							}
+						}
+						return false
+					}
+				}
+			}
+			return true
+		})
+	}
+	lhs := func(e ast.Expr) {
+		if ie, ok := e.(*ast.IndexExpr); ok && isMap(ie.X) {
+			reads(ie.X)
+			reads(ie.Index)
+			announce(ie.X, true)
+			return
+		}
+		reads(e)
+	}
+	var simple func(st ast.Stmt)
+	simple = func(st ast.Stmt) {
+		switch x := st.(type) {
+		case nil:
+		case *ast.ExprStmt:
+			reads(x.X)
+		case *ast.AssignStmt:
+			for _, e := range x.Rhs {
+				reads(e)
+			}
+			for _, e := range x.Lhs {
+				lhs(e)
+			}
+		case *ast.IncDecStmt:
+			lhs(x.X)
+		case *ast.SendStmt:
+			reads(x.Chan)
+			reads(x.Value)
+		case *ast.ReturnStmt:
+			for _, e := range x.Results {
+				reads(e)
+			}
+		}
+	}
+	switch x := s.(type) {
+	case *ast.IfStmt:
+		simple(x.Init)
+		reads(x.Cond)
+	case *ast.SwitchStmt:
+		simple(x.Init)
+		reads(x.Tag)
+	case *ast.ForStmt:
+		simple(x.Init)
+	case *ast.RangeStmt:
+		reads(x.X)
+	case *ast.GoStmt:
+		for _, e := range x.Call.Args {
+			reads(e)
+		}
+	case *ast.DeferStmt:
+		for _, e := range x.Call.Args {
+			reads(e)
+		}
+	default:
+		simple(s)
+	}
+	return outStmts
+}
+
 // insertYields puts a yield point before every statement of a block (recursively).
 func (r *rewriter) insertYields(b *ast.BlockStmt, fn string) {
 	if b == nil {
@@ -334,8 +495,12 @@ func (r *rewriter) insertYields(b *ast.BlockStmt, fn string) {
 		switch s.(type) {
 		case *ast.DeclStmt, *ast.LabeledStmt, *ast.EmptyStmt:
 		default:
+			if !s.Pos().IsValid() { // synthesized prelude of a rewritten range
+				break
+			}
 			out = append(out, &ast.ExprStmt{X: rtCall("Yield", strLit(fmt.Sprintf("%s@%s", fn, r.pos(s.Pos()))))})
 		}
+		out = append(out, r.mapAccesses(s)...)
 		out = append(out, s)
 		ast.Inspect(s, func(n ast.Node) bool {
 			switch x := n.(type) {
